@@ -22,8 +22,8 @@ from checks.c12 import gen_rule, PATHS, IFACES, MEMBERS, ARGVALS
 
 PROPERTY = 'C14'
 LEVEL = 'exploration'
-QUICK_RUNS = 3000
-QUICK_BUDGET_S = 120
+QUICK_RUNS = 12000
+QUICK_BUDGET_S = 60
 THOROUGH_BUDGET_S = 1200
 RULE = ('histories of 3-30 operations among up to 4 (+ newly connecting) peers: unicast '
         'messages of the 4 types to unique / well-known / unowned / vanished names with '
